@@ -98,7 +98,13 @@ func (_this *Context) SwapBuilder(builder Builder) Builder {
 
 func (_this *Context) ArtificiallyTerminate() {
 	for len(_this.builderStack) > 1 {
+		depthBefore := len(_this.builderStack)
 		_this.CurrentBuilder.BuildArtificiallyEndContainer(_this)
+		if len(_this.builderStack) >= depthBefore {
+			// Not every builder can complete artificially (edge, node, scalar builders do nothing).
+			// Abandon such a builder so that termination always makes progress instead of spinning forever.
+			_this.UnstackBuilder()
+		}
 	}
 }
 
